@@ -3,6 +3,7 @@
 #include <cfloat>
 
 #include "elementwise.hpp"
+#include "refs_perm.hpp"
 
 namespace xv
 {
@@ -461,6 +462,91 @@ namespace xv
         return s;
     }
 
+    // C05: lane-aware data-movement spaces
+    inline SubSpace make_perm_space(const std::string& key, const xv_op& sig, int L, const Tier& T)
+    {
+        SubSpace s;
+        s.al.resize((size_t)sig.nin);
+        s.perm_L = L;
+        s.perm_es = xv_type_size[sig.elem];
+        s.perm_fp = !is_int_type(sig.elem);
+        if (key == "perm.tags")
+        {
+            s.perm_mode = 1;
+            s.label = "lane tags (all bytes distinct; sNaN payloads / complemented tags), L=" + std::to_string(L);
+        }
+        else if (key == "perm.index")
+        {
+            s.perm_mode = 2;
+            // run-time index vectors: every n^n vector for n <= 4 (thorough: n <= 8), the constant-mask families and all pairs of deviations from identity
+            if (L <= 4 || (T.thorough && L <= 8))
+            {
+                uint64_t tot = 1;
+                for (int i = 0; i < L; ++i)
+                    tot *= (uint64_t)L;
+                for (uint64_t c = 0; c < tot; ++c)
+                {
+                    std::vector<uint8_t> v((size_t)L);
+                    uint64_t x = c;
+                    for (int i = 0; i < L; ++i)
+                    {
+                        v[(size_t)i] = (uint8_t)(x % (uint64_t)L);
+                        x /= (uint64_t)L;
+                    }
+                    s.perm_index.push_back(v);
+                }
+            }
+            else
+            {
+                for (auto& m : perm_tables().swz[L])
+                    s.perm_index.push_back(m);
+                const int step = L <= 16 ? 1 : L / 8;
+                for (int i = 0; i < L; i += step)
+                    for (int j = 0; j < L; j += step)
+                        for (int i2 = i + 1; i2 < L; i2 += step * 3)
+                        {
+                            std::vector<uint8_t> v((size_t)L);
+                            for (int q = 0; q < L; ++q)
+                                v[(size_t)q] = (uint8_t)q;
+                            v[(size_t)i] = (uint8_t)j;
+                            v[(size_t)i2] = (uint8_t)((j + i2) % L);
+                            s.perm_index.push_back(v);
+                        }
+            }
+            s.label = std::to_string(s.perm_index.size()) + " run-time index vectors x 2 tag assignments, L=" + std::to_string(L);
+        }
+        else
+        {
+            s.perm_mode = 3;
+            if (L <= 16)
+                for (uint64_t m = 0; m < (1ull << L); ++m)
+                    s.perm_masks.push_back(m);
+            else
+            {
+                const uint64_t ALL = L == 64 ? ~0ull : ((1ull << L) - 1);
+                std::vector<uint64_t> v = { 0, ALL, 0x5555555555555555ull & ALL, 0xAAAAAAAAAAAAAAAAull & ALL, 0x3333333333333333ull & ALL, 0x0F0F0F0F0F0F0F0Full & ALL, 0x00FF00FF00FF00FFull & ALL, 0x0000FFFF0000FFFFull & ALL, 0x00000000FFFFFFFFull & ALL };
+                for (int i = 0; i < L; ++i)
+                {
+                    v.push_back(1ull << i); // one-hot
+                    v.push_back(ALL & ~(1ull << i)); // all but one
+                    v.push_back(i == 63 ? ALL : ((1ull << (i + 1)) - 1)); // prefixes
+                    v.push_back(ALL & ~(i == 63 ? ALL : ((1ull << (i + 1)) - 1))); // suffixes
+                }
+                for (int g = 0; g < L; g += 16)
+                    for (uint64_t pat : { 0xFFFFull, 0x00FFull, 0xF0F0ull, 0x8001ull })
+                        v.push_back((pat << g) & ALL); // per-128-bit-lane patterns
+                uint64_t sd = T.seed * 131 + (uint64_t)L;
+                for (int k = 0; k < (T.thorough ? 4096 : 256); ++k)
+                    v.push_back(splitmix64(sd) & ALL);
+                dedup_keep_order(v);
+                s.perm_masks = v;
+            }
+            s.label = std::to_string(s.perm_masks.size()) + " masks x 2 tag assignments, L=" + std::to_string(L);
+        }
+        s.finish();
+        return s;
+    }
+
     inline std::vector<long> make_params(int kind, int elem)
     {
         std::vector<long> p;
@@ -544,6 +630,39 @@ namespace xv
                         oi->name = name;
                         oi->prop = "C13";
                         oi->param = p;
+                        for (auto& im : kv.second)
+                            if (im.op->lanes == L)
+                                oi->impls.push_back(im);
+                        g->ops.push_back(std::move(oi));
+                    }
+                }
+                continue;
+            }
+            if (skey.compare(0, 5, "perm.") == 0)
+            {
+                std::set<int> Ls;
+                for (auto& im : kv.second)
+                    Ls.insert(im.op->lanes);
+                for (int L : Ls)
+                {
+                    std::string gk = skey + "|" + std::to_string(sig.elem) + "|L" + std::to_string(L) + "|" + std::to_string(sig.nin);
+                    for (int k = 0; k < sig.nin; ++k)
+                        gk += "," + std::to_string(sig.in_t[k]);
+                    Group*& g = gmap[gk];
+                    if (!g)
+                    {
+                        E.groups.emplace_back(new Group);
+                        g = E.groups.back().get();
+                        g->sig = sig;
+                        g->sp = make_perm_space(skey, sig, L, T);
+                    }
+                    for (long pp : perm_params(spec->name, L, xv_type_size[sig.elem]))
+                    {
+                        std::unique_ptr<OpInst> oi(new OpInst);
+                        oi->spec = spec;
+                        oi->name = name;
+                        oi->prop = prop;
+                        oi->param = pp;
                         for (auto& im : kv.second)
                             if (im.op->lanes == L)
                                 oi->impls.push_back(im);
